@@ -4,6 +4,7 @@
   weights with clamping (incl. the zero-width cell of a single-row/column grid).  Core Lean only.
 -/
 import PhotVerif.Model.Prelude
+import PhotVerif.Gen.PsfOrigin
 namespace PhotVerif.Model.Psf
 
 /-- `np.searchsorted(grid, x)` (side='left') for an increasing grid: number of nodes strictly below x -/
@@ -48,5 +49,14 @@ def arrayCoord (os origin x x0 : Rat) : Rat := os * (x - x0) + origin
 
 /-- outside the data array ⇒ fill_value -/
 def isInvalid (n : Nat) (xi : Rat) : Bool := decide (xi < 0 ∨ xi > (n : Rat) - 1)
+
+/-- the index placed at x_0 when the caller gives no origin, along an axis of n samples (constants regenerated from the source) -/
+def defaultOrigin (sub : Int) (den : Nat) (n : Nat) : Rat := ((n : Rat) - sub) / den
+
+def griddedOrigin (n : Nat) : Rat := defaultOrigin Gen.PsfOrigin.griddedSub Gen.PsfOrigin.griddedDen n
+def imageOrigin (n : Nat) : Rat := defaultOrigin Gen.PsfOrigin.imageSub Gen.PsfOrigin.imageDen n
+
+/-- detector offset from x_0 at which array sample i sits -/
+def sampleOffset (os origin : Rat) (i : Nat) : Rat := ((i : Rat) - origin) / os
 
 end PhotVerif.Model.Psf
